@@ -62,7 +62,7 @@ func drawDate(t *rapid.T, name string) string {
 }
 
 type Damage struct {
-	Kind string `json:"kind"` // none | truncate | delete_lt | delete_gt | rename_close | stray_amp | unclosed_quote | invalid_byte | bad_number | bad_date | truncate_gzip
+	Kind string `json:"kind"` // none | truncate | delete_lt | delete_gt | rename_close | stray_amp | unclosed_quote | invalid_byte | bad_number | bad_date | undeclared_entity | truncate_gzip
 	At   int    `json:"at"`   // truncate: byte offset; others: index of the occurrence to damage (mod count)
 }
 
@@ -201,6 +201,15 @@ func applyDamage(doc []byte, rootEnd int, d Damage) (out []byte, at int, damaged
 			return doc, 0, false
 		}
 		o := append(append(append([]byte{}, doc[:p+1]...), []byte("& ")...), doc[p+1:]...)
+		return o, p + 1, true
+	case "undeclared_entity": // a reference to an entity XML does not declare (HTML knows it) in character data
+		p, ok := pickFrom(occurrences(doc, func(i int) bool { return inRoot(i) && doc[i] == '>' && i+1 < rootEnd && doc[i+1] != '<' }))
+		if !ok {
+			return doc, 0, false
+		}
+		names := []string{"&nbsp;", "&yen;", "&eta;", "&psi;", "&reg;", "&alpha;", "&copy;", "&eacute;"}
+		ent := names[((d.At/7)%len(names)+len(names))%len(names)]
+		o := append(append(append([]byte{}, doc[:p+1]...), []byte(ent)...), doc[p+1:]...)
 		return o, p + 1, true
 	case "unclosed_quote":
 		p, ok := pickFrom(occurrences(doc, func(i int) bool {
@@ -657,7 +666,7 @@ func genWellFormed(t *rapid.T) Case {
 
 func genDamaged(t *rapid.T) Case {
 	c := Case{Entries: drawEntries(t, 60), Copyright: rapid.Bool().Draw(t, "copyright"), Pretty: rapid.Bool().Draw(t, "pretty"), Consumer: drawConsumer(t)}
-	c.Damage = Damage{Kind: rapid.SampledFrom([]string{"truncate", "truncate", "delete_lt", "delete_gt", "rename_close", "stray_amp", "unclosed_quote", "invalid_byte", "bad_number", "bad_date", "truncate_gzip"}).Draw(t, "damage"),
+	c.Damage = Damage{Kind: rapid.SampledFrom([]string{"truncate", "truncate", "delete_lt", "delete_gt", "rename_close", "stray_amp", "unclosed_quote", "invalid_byte", "bad_number", "bad_date", "undeclared_entity", "truncate_gzip"}).Draw(t, "damage"),
 		At: rapid.IntRange(0, 1<<30).Draw(t, "damage_at")}
 	if c.Damage.Kind == "truncate_gzip" || rapid.IntRange(0, 4).Draw(t, "via_gzip") == 0 {
 		c.ViaGzip = true
